@@ -81,7 +81,11 @@ def run(ctx):
     o_len = f.origin(r["ops"][r["fields"].index("body_length")])
     CL = [x[1] for x in origin_walk(o_len) if x[0] == "local"][0]
     # reuse C03's identification of the decisive locals by running its helper through a tiny shim
-    locs = find_flags(f)
+    try:
+        locs = find_flags(f)
+    except CheckerError as e:
+        ctx.ob("C11.2", "%s|reader-released-at-parse-time" % f.id, "the body-kind decision of new_request is made on the recognised predicates", False, "%s:%d" % (f.file, f.line), str(e))
+        return c11_rest(ctx, facts, nr, memo)
     UP, EX = locs
     dom = f.dominators(False)
     starts = [b for b in dom[rc] if bool_switch(f, b) and any(x == ("local", UP) for x in origin_walk(f.origin(bool_switch(f, b)[0])))]
@@ -159,6 +163,10 @@ def run(ctx):
            "the request gives its share of the socket reader back during parsing exactly when its body is absent, empty or pre-read (0 < Content-Length <= 1024 without Expect); otherwise it keeps it",
            not bad, f.loc(start), None if not bad else str(bad[:4]))
 
+    return c11_rest(ctx, facts, nr, memo)
+
+
+def c11_rest(ctx, facts, nr, memo):
     # ---- C11.3 the body reader lives and dies with the Request
     ts = shared.slot_typestate(facts, "data_reader")
     ok = not ts["bad"]
